@@ -14,12 +14,14 @@ def _r(rng, lo, hi, nd=3):
     return round(rng.uniform(lo, hi), nd)
 
 
-def gen_spec(rng, size=1, inp_only=False, exotic=0.0, share_curves=False):
+def gen_spec(rng, size=1, inp_only=False, exotic=0.0, share_curves=False, control_attrs=False):
     """inp_only: restrict to what the INP format has a place for (C12).  exotic: probability of control forms that
     neither the [CONTROLS] syntax nor the dict 'simple' form can express (reported under their own keys).
     share_curves: let 2-3 elements refer to ONE curve of every type (volume: tanks, head / efficiency: pumps, headloss:
     GPVs); decided by a generator of its own seeded from the spec, so that the main random stream (and every spec
-    generated without the flag) is unchanged."""
+    generated without the flag) is unchanged.
+    control_attrs: simple controls also on a junction's HEAD and a tank's HEAD / PRESSURE (the [CONTROLS] syntax says level
+    for a tank and pressure for a junction: the same condition in another datum); again decided by a private generator."""
     sp = {}
     npat = rng.randint(1, 3)
     pats = []
@@ -317,7 +319,24 @@ def gen_spec(rng, size=1, inp_only=False, exotic=0.0, share_curves=False):
     sp["options"] = o
     if share_curves:
         _share_curves(sp)
+    if control_attrs:
+        _control_attrs(sp)
     return sp
+
+
+def _control_attrs(sp):
+    import random
+    r2 = random.Random("attrs" + json.dumps(sp, sort_keys=True))
+    elev = {n["name"]: n["elev"] for n in sp["junctions"] + sp["tanks"]}
+    tanks = {t["name"] for t in sp["tanks"]}
+    for c in sp["controls"]:
+        a = c["cond"]
+        if c["kind"] != "control" or a[0] != "val" or a[1] != "node" or a[2] not in elev:
+            continue
+        attr = r2.choice(["level", "head", "pressure"] if a[2] in tanks else ["pressure", "head", "pressure"])
+        if attr == "head":
+            a[5] = round(a[5] + elev[a[2]], 2)
+        a[3] = attr
 
 
 def _share_curves(sp):
